@@ -119,6 +119,27 @@ func (storeH) Generate(property string, seed uint64, tier string) *Case {
 		}
 		op.Labels = lbl()
 	}
+	if property == "C13" {
+		// the marker protocol of deployments (see storeh13.go), mixed with plain records
+		n = 3 + g.IntN(5)
+		for i := 0; i < n; i++ {
+			op := storeOp{Pod: "p0", Node: pick(g, nodes), App: pick(g, apps), Entry: pick(g, entries), ID: pick(g, ids)}
+			switch g.IntN(6) {
+			case 0:
+				op.Kind = "add_workload"
+			case 1:
+				op.Kind = "remove_workload"
+			default:
+				op.Kind, op.ID, op.Count = "deploy_seq", fmt.Sprintf("d%d", i), 1+g.IntN(3)
+				if g.IntN(2) == 0 {
+					op.TTL = int64(g.IntN(8)) // which instances fail
+					op.Flag = g.IntN(2) == 0  // ... before (true) or after they were recorded
+				}
+			}
+			ops = append(ops, mustJSON(op))
+		}
+		return &Case{Plan: simrt.Plan{Policy: "fifo", CrashAt: -1}, Cfg: mustJSON(map[string]string{"names": property}), Ops: ops}
+	}
 	for i := 0; i < n; i++ {
 		op := storeOp{Pod: pick(g, stPods), Node: pick(g, nodes), App: pick(g, apps), Entry: pick(g, entries), ID: pick(g, ids)}
 		x := g.IntN(100)
@@ -564,6 +585,8 @@ func applyStoreOp(ctx context.Context, b *stBackend, op storeOp, viol func(p, ru
 				res.Probes["status_without_ttl"]++
 			}
 		}
+	case "deploy_seq":
+		err = deploySeq(ctx, b, op, viol, res)
 	case "create_processing":
 		err = st.CreateProcessing(ctx, &coretypes.Processing{Appname: op.App, Entryname: op.Entry, Nodename: op.Node, Ident: "pid"}, op.Count)
 		if err == nil {
